@@ -285,7 +285,8 @@ func checkSpec(src string, withProcess bool) (first outcome, err error) {
 	return first, nil
 }
 
-var literalPool = []string{"e", "E", "x", "X", "if", "IF", "iF", "in", "do", "Do", "+", "++", "-", "=", "==", "(", ")", "ab", "aB", "Ab"}
+// the last entries spell the text of a pattern of regexPool: as a string literal they are other terminals
+var literalPool = []string{"e", "E", "x", "X", "if", "IF", "iF", "in", "do", "Do", "+", "++", "-", "=", "==", "(", ")", "ab", "aB", "Ab", "[a-z]+", "[0-9]+", "[A-Z]+", "if|in|do", "[+=-]+"}
 
 type regexTok struct{ name, def string }
 
